@@ -133,6 +133,29 @@ SELECTIONS = [
 ]
 
 
+SEL_FLAGS = ["--branches", "--no-branches", "--tags", "--no-tags", "--remotes", "--no-remotes", "--notes", "--stash"]
+SEL_PATTERNS = ["refs/heads", "refs/heads/dev", "refs/heads/main", "refs/tags", "refs/remotes/origin", "refs", "refs/pull", "refs/foo",
+                "/refs/(heads|remotes)/.*/", "/.*main/", "/refs/tags/v.*/", "/.*/", "/refs/heads/(d|dev|main)/", "@tags", "@branches", "@remotes"]
+
+
+def random_selection(rng):
+    """A sequence of 1-5 selection options over a small per-case alphabet, so that the same option and the same pattern come
+    back after opposite ones (order and repetition matter: the last matching option decides)."""
+    alpha = rng.sample(SEL_PATTERNS, 3) + rng.sample(SEL_FLAGS, 2)
+    out = []
+    for _ in range(rng.randint(1, 5)):
+        a = rng.choice(alpha)
+        if a.startswith("--"):
+            out.append(a)
+        else:
+            opt = rng.choice(["--include", "--exclude"])
+            if rng.random() < 0.3:
+                out.append(opt + "=" + a)
+            else:
+                out += [opt, a]
+    return out
+
+
 # ---------------------------------------------------------------------------
 
 def add_refgroup_config(rng, model):
@@ -262,7 +285,7 @@ def run_case(spec):
         spec = dict(spec, _forest=forest)
         argvs = []
         nsel = spec.get("nsel", 3)
-        sels = [[]] + [rng.choice(SELECTIONS) for _ in range(nsel - 1)]
+        sels = [[]] + [rng.choice(SELECTIONS) if rng.random() < 0.5 else random_selection(rng) for _ in range(nsel - 1)]
         gsyms = [g for g in forest.groups if g and "\n" not in g and not g.startswith("-")]
         if forest_entries and gsyms:
             sels[-1] = [rng.choice(["--include", "--exclude"]), "@" + rng.choice(gsyms)]
@@ -280,6 +303,28 @@ def run_case(spec):
             argvs.append(([], rng.sample(cands, 1)))
         for sel, roots in argvs:
             one_run(spec, rng, res, model, gitdir, d, sel, roots)
+        if spec.get("tail_sweep") and idx % spec["tail_sweep"] == 2 and spec.get("shimdir"):
+            # the second pass's stream ending inside its LAST record while the child reports success (a short read that can
+            # be noticed): every such run must fail or be right in everything it reports
+            sel, roots = argvs[0]
+            pdir = os.path.join(d, "tailrec")
+            rr = R.sizer(spec["sizer"], gitdir, ["--json", "--no-progress"] + sel + [sp for sp, _ in roots], shimdir=spec["shimdir"],
+                         plan=R.make_plan(pdir, [], record=True, record_stdin=True), tmpdir=d)
+            sent = os.path.join(pdir, "stdin.cat-file_--batch.0")
+            evs = [e for e in R.read_events(pdir) if e["sig"] == "cat-file --batch"]
+            if rr.rc == 0 and os.path.exists(sent) and evs:
+                lines = open(sent).read().split()
+                last = allobjs.get(lines[-1]) if lines else None
+                if last is not None:
+                    body = last.size + 1
+                    total = evs[0]["real_bytes"]
+                    ks = sorted(set([1, 2, body - 1, body, body // 2] + [rng.randint(1, body) for _ in range(10)]))
+                    for k in [x for x in ks if 1 <= x <= body]:
+                        one_run(dict(spec, _force_fault={"sig": "cat-file --batch", "ord": 0, "mode": "fault", "term": "exit:0",
+                                                        "after_bytes": total - k}, permute=0),
+                                rng, res, model, gitdir, d, sel, roots)
+                    res["tail_cut_runs"] = res.get("tail_cut_runs", 0) + len(ks)
+            shutil.rmtree(pdir, ignore_errors=True)
         if idx % 40 == 3 and spec.get("shimdir"):
             # every git child of one plain run failing at its start, inside and at the end of its output: exit 0 must mean
             # the fault-free report
@@ -365,6 +410,12 @@ def dag_model(rng):
     trees = [pool.new_tree(max_depth=1, max_entries=3) for _ in range(3)]
     pool.trees = trees
     commits = G.gen_dag(rng, pool, n, shape=shape, ts=tsp, hostile=rng.random() < 0.3)
+    if rng.random() < 0.2 and len(commits) >= 2:
+        # a commit that lists the same parent more than once (importers write such commits; git counts every parent line)
+        a, b_ = rng.sample(commits, 2)
+        k = max(len(c.parents) for c in commits)
+        dup = G.Commit(trees[0], [a, b_, a] + [a] * rng.choice([0, 0, k]), cts=rng.randint(1, 2 ** 31 - 1), msg=b"duplicate parents\n")
+        commits = commits + [dup]
     m.commits = commits
     heads = rng.sample(commits, min(len(commits), rng.randint(1, 4)))
     if rng.random() < 0.7:
@@ -565,6 +616,10 @@ def one_run(spec, rng, res, model, gitdir, d, sel, roots):
         pdir = os.path.join(d, "plan%d" % res["runs"])
         plan = R.make_plan(pdir, [{"sig": "rev-list", "ord": -1, "mode": "permute", "seed": rng.getrandbits(31)}])
     faulted = False
+    if plan is None and spec.get("_force_fault"):
+        pdir = os.path.join(d, "ffplan%d" % res["runs"])
+        plan = R.make_plan(pdir, [spec["_force_fault"]])
+        faulted = True
     if plan is None and spec.get("shimdir") and rng.random() < 0.06:
         # a git child that dies somewhere: the run may fail (C10 judges how), but if it reports success the report
         # must still be the right one
@@ -577,8 +632,13 @@ def one_run(spec, rng, res, model, gitdir, d, sel, roots):
             allo = O.reachable(list(model.refs.values()) + [o for _, o in roots])
             total = sum(len("%s %s %d\n" % (o.oid, o.kind, o.size)) + o.size + 1 for o in allo.values() if o.kind != "blob")
             after = max(0, total - rng.randint(1, 400))
-        plan = R.make_plan(pdir, [{"sig": sig, "ord": 0, "mode": "fault", "term": rng.choice(["exit:128", "exit:2", "sig:KILL"]),
-                                   "after_bytes": after}])
+        term = rng.choice(["exit:128", "exit:2", "sig:KILL"])
+        if sig == "cat-file --batch" and after not in (0, 41, 82, 150, 400, 1 << 40) and rng.random() < 0.5:
+            # the stream ends inside its last record (every record is longer than 40 bytes) although the child reports
+            # success: the short read is detectable, so a run that succeeds must not have used the incomplete object
+            after = max(0, total - rng.randint(1, 40))
+            term = "exit:0"
+        plan = R.make_plan(pdir, [{"sig": sig, "ord": 0, "mode": "fault", "term": term, "after_bytes": after}])
         faulted = True
     if plan is None and spec.get("shimdir") and rng.random() < 0.08:
         # children that deliver their output in pieces with long pauses in between (a stalled pipe, a loaded machine)
@@ -671,6 +731,9 @@ def one_run(spec, rng, res, model, gitdir, d, sel, roots):
             if tok in ("--include", "--exclude") and i_ + 1 < len(sel):
                 rules.append(S.parse_opt([tok, sel[i_ + 1]]))
                 i_ += 2
+            elif tok.startswith(("--include=", "--exclude=")):
+                rules.append(S.parse_opt(tok.split("=", 1)))
+                i_ += 1
             else:
                 rules.append(S.parse_opt([tok]))
                 i_ += 1
